@@ -91,6 +91,8 @@ def card_work(payload):
         seen_kind = set()
         for k, (gl, kind) in enumerate(labels[1:], start=1):
             dev = np.abs(dens[k] - base) / np.maximum(np.abs(base), 1e-6 * scale)
+            if dev.max() <= 1e-9:
+                res.stat_max("rel_dev_on_passing_cases", dev.max())
             if dev.max() > 1e-9:
                 fam = label.split("|")[0]
                 if (kind, fam) in seen_kind:
